@@ -40,7 +40,7 @@ def allUnder (key : Str) (m : Val) : List Val := (nodes m).flatMap (storedAt key
 def typedEq : SubVal → Val → Bool
   | .str s, .str s' => s == s'
   | .bool b, .bool b' => b == b'
-  | .num t, .num t' => t == t'
+  | .num t, .num t' => numEq t t'      -- equal as float64 values (the two zeros are equal, NaN is not)
   | _, _ => false
 
 /-- `k:v`  — entry `k` exists and equals `v` (typed);  `k:*` — entry `k` exists;
